@@ -137,7 +137,8 @@ def run(tape, scenario, want_c10=False):
     for s in range(tape.draw("c08/nsubcls", 3) if scenario != "flat" else 0):
         sns = {}
         names_before = len(decls)
-        declare(sns, f"subcls{s}", 1 + tape.draw("c08/nsubvars", 3), percpu_ok=False)
+        declare(sns, f"subcls{s}", 1 + tape.draw("c08/nsubvars", 3),
+                percpu_ok=pmap is not None and tape.chance("c08/percpu-in-subprogram", 50))
         subclasses.append((type(f"Sub{s}", (SubProgram,), sns), decls[names_before:]))
         del decls[names_before:]
     subs = []
@@ -167,7 +168,8 @@ def run(tape, scenario, want_c10=False):
     def program(self):
         def obj(h):
             return self if h == "prog" else self.subprograms[int(h[3:])]
-        for kind, dst, src in stmts:
+        # (a second instance of the class has other sub-programs: its body is empty)
+        for kind, dst, src in ([] if holders.get("building-second") else stmts):
             if kind == "copy":
                 setattr(obj(dst[0]), dst[1], getattr(obj(src[0]), src[1]))
             else:
@@ -203,6 +205,27 @@ def run(tape, scenario, want_c10=False):
             viol("program-cannot-be-generated", f"{type(e).__name__}: {e}; decls={decls}",
                  exception=type(e).__name__)
             p = None
+        if p is not None and subclasses and tape.chance("c08/second-instance", 30):
+            # another instance of the same program class, with another list of
+            # sub-programs (so its maps have other sizes), is generated and loaded
+            # while the first one is in use: nothing of it may show in the first
+            try:
+                others = [tape.pick("c08/subcls2", subclasses)[0]()
+                          for _ in range(tape.draw("c08/nsubs2", 5))]
+                holders["building-second"] = True
+                p2 = P(subprograms=tuple(others))
+                p2.load()
+                holders["building-second"] = False
+                holders["second"] = p2
+                world.count("c08/second-instance-of-the-program-class")
+                if getattr(pmap, "size", None) is not None and \
+                        pmap.collect(p2) != pmap.collect(p):
+                    world.count("c08/second-instance-with-another-per-cpu-map-size")
+                if amap.collect(p2) != amap.collect(p):
+                    world.count("c08/second-instance-with-another-array-map-size")
+            except Exception as e:
+                viol("program-cannot-be-generated", f"second instance: {type(e).__name__}: {e}",
+                     exception=type(e).__name__)
         if p is not None:
             prog = kernel.obj(p.file_descriptor)
 
@@ -218,7 +241,14 @@ def run(tape, scenario, want_c10=False):
                         pos = obj(h).__dict__[n]
                         ranges.append((pos, pos + fsize(f), h, n, f))
                 ranges.sort()
-                size = getattr(themap, "size", 0)
+                # (the size of this program's own map, as the kernel has it)
+                own = p.__dict__.get(themap.name)
+                if own is None:
+                    size = 0
+                elif kind == "array":
+                    size = len(own)
+                else:
+                    size = kernel.obj(own.fd).value_size
                 for r in ranges:
                     if r[1] > size:
                         viol("variable-outside-map", f"{r[2]}.{r[3]} ({r[4]}) occupies "
@@ -308,10 +338,10 @@ def run(tape, scenario, want_c10=False):
                              more_possible_than_online=possible > online)
                         break
                     h, n, f, k = tape.pick("c08/pcvar", pc_vars)
-                    seq = getattr(p, n)
+                    seq = getattr(obj(h), n)
                     # the object an application fetched earlier and kept (outside its
                     # polling loop) shows the values of this read as well
-                    kept = kept_views.get(n)
+                    kept = kept_views.get((h, n))
                     if kept is not None and tape.chance("c08/use-kept-view", 50):
                         world.count("c08/per-cpu-view-kept-across-reads")
                         try:
@@ -327,7 +357,7 @@ def run(tape, scenario, want_c10=False):
                                  f"{stale[0]}, a fresh one {seq[stale[0]]!r}",
                                  more_possible_than_online=possible > online)
                             break
-                    kept_views[n] = seq
+                    kept_views[(h, n)] = seq
                     ncpu = len(seq)
                     if ncpu < online:
                         viol("percpu-cpu-count", f"{n}: Python sees {ncpu} CPUs, {online} are "
